@@ -543,6 +543,24 @@ func RunCheck(id, tier string, seed int64) int {
 		}
 		return res.Viols[i].Index < res.Viols[j].Index
 	})
+	// show variety first: one violation per class prefix (text before the first ':'), then the rest
+	{
+		seenP := map[string]bool{}
+		var first, rest []Violation
+		for _, v := range res.Viols {
+			p := v.Class
+			if i := strings.IndexByte(p, ':'); i > 0 {
+				p = p[:i]
+			}
+			if !seenP[p] {
+				seenP[p] = true
+				first = append(first, v)
+			} else {
+				rest = append(rest, v)
+			}
+		}
+		res.Viols = append(first, rest...)
+	}
 	exit := 0
 	knownPrinted := map[string]bool{}
 	classSeen := map[string]int{}
